@@ -722,7 +722,8 @@ def tasks_for(tier):
         shard('three-field-d2', three_field_start(), 'R2', 2, 'full',
               NARROW_KINDS, ('W2', 'W3'))
         shard('indexed-d2', indexed_start(), 'R2', 2, 'full',
-              ('AddField', 'DeleteField', 'ChangeField'), ('W2', 'W3'))
+              ('AddField', 'DeleteField', 'ChangeField', 'RenameField'),
+              ('W2', 'W3'))
         # a relation added to a model that is then renamed twice
         shard('rename-chain-d3', two_model_start(), 'R2', 3, 'full',
               ('AddField', 'RenameModel'), ('W2', 'W3'),
